@@ -51,6 +51,9 @@ func init() {
 			emit("mux 61 - 0 0 0 0 1 AAP R")
 			emit("asyncd 612f62 010203 1 0 1 7 3 TPF ZA")
 			emit("asyncd 61 0102030405060708 0 0 0 0 4 Z N")
+			// ServeAsync in front of a ServeMux (the paho wrapper's arrangement): scripts[0] = the dispatcher, the rest = mux handlers
+			emit("asyncmuxd 612f62 010203 1 1 1 258 3 TPFZ N A ZT")
+			emit("asyncmuxd 61 0102030405060708 0 0 0 0 2 ZA P N")
 			ops := "TPZARF"
 			for i := 0; i < n; i++ {
 				k := 1 + rng.Intn(6)
@@ -67,7 +70,15 @@ func init() {
 					scripts = append(scripts, s)
 				}
 				mode := "mux"
-				switch rng.Intn(3) {
+				switch rng.Intn(4) {
+				case 3:
+					mode = "asyncmuxd"
+					for len(scripts) < 3 {
+						scripts = append(scripts, []string{"ZT", "N", "A"}[len(scripts)])
+					}
+					if scripts[0] == "N" {
+						scripts[0] = "PTF"
+					}
 				case 0:
 					mode = "async"
 				case 1:
@@ -97,6 +108,48 @@ func init() {
 			var mu sync.Mutex
 			var views []string
 			r := Result{Tags: []string{"nontrivial", mode, fmt.Sprintf("handlers%d", len(scripts))}}
+			if mode == "asyncmuxd" {
+				// ServeAsync{Handler: mux}: the first mux handler is held back until the dispatcher has changed its
+				// message, so every copy that is taken late would show the later content
+				var views, wants []string
+				hs := scripts[1:]
+				for round := 0; round < rounds; round++ {
+					gate := make(chan struct{})
+					rv := make([]string, len(hs))
+					var wg sync.WaitGroup
+					mux := &mqtt.ServeMux{}
+					for i, sc := range hs {
+						i, sc := i, sc
+						wg.Add(1)
+						mux.Handle("#", mqtt.HandlerFunc(func(m *mqtt.Message) {
+							defer wg.Done()
+							if i == 0 {
+								<-gate
+							}
+							rv[i] = viewOf(m)
+							runScript(m, sc)
+						}))
+					}
+					h := &mqtt.ServeAsync{Handler: mux}
+					want := viewOf(msg)
+					h.Serve(msg)
+					runScript(msg, scripts[0])
+					close(gate)
+					wg.Wait()
+					for range hs {
+						wants = append(wants, want)
+					}
+					views = append(views, rv...)
+				}
+				r.Out = strings.Join(views, " ") + " | caller=" + viewOf(msg)
+				for i := range views {
+					if views[i] != wants[i] {
+						r.Props = append(r.Props, viol("C20", "async-mux-saw-later-content", "handler %d behind ServeAsync+ServeMux saw %s, dispatched %s", i%len(hs), views[i], wants[i]))
+						break
+					}
+				}
+				return r
+			}
 			if mode == "asyncd" {
 				// ServeAsync used directly: scripts[0] is what the CALLER does to its own message right
 				// after Serve returned (a dispatcher reusing its buffer), scripts[1] what the handler does.
